@@ -49,7 +49,7 @@ def _all_lines(events):
                 yield from _all_lines(a.events)
 
 
-@rule("C05.return-convention", min_instances=16)
+@rule("C05.return-convention", min_instances=16, props=["C17"])
 def return_convention(ctx):
     """after the finally: unbuffered defs write and return ''; buffered/cached return the (filtered) content and write nothing; filtered-only writes the filtered content exactly once"""
     db = ctx.db
@@ -205,6 +205,77 @@ def signature_fields(ctx):
     # as_call passes keyword-only arguments by name
     kwonly = [n for g_ in db.with_helpers(g) for n in ast.walk(g_) if isinstance(n, ast.If) and src(n.test) == "as_call"]
     ctx.check(any("'%s=%s'" in src(n.body[0]) or '"%s=%s"' in src(n.body[0]) for n in kwonly), "as_call.kwonly-by-name", db.where(g), "keyword-only arguments are not passed by name in as_call mode", "kwonly passed as name=name")
+
+
+@rule("C05.slurpy-excluded-from-count", min_instances=1, props=["C06", "C19"])
+def slurpy_excluded_from_count(ctx):
+    """defaults are aligned with the trailing positional parameters: no count of the positional names that is combined with the defaults may include the *args (/**kwargs) name stored at the end of argnames (/kwargnames)"""
+    db = ctx.db
+    g = db.func("ast.FunctionDecl.get_argument_expressions")
+    pairs = (("argnames", "varargs", "defaults"), ("kwargnames", "kwargs", "kwdefaults"))
+    fns = db.with_helpers(g)
+    nodes = [n for g_ in fns for n in walk_func(g_)]
+
+    def _copy_of(e, attr):
+        """is `e` a (reversed) copy / alias of self.<attr> with every element kept?"""
+        if dotted(e) == "self." + attr:
+            return True
+        if isinstance(e, ast.Call) and dotted(e.func) in ("list", "reversed", "tuple") and len(e.args) == 1:
+            return _copy_of(e.args[0], attr)
+        if isinstance(e, ast.Subscript) and isinstance(e.slice, ast.Slice) and e.slice.lower is None and e.slice.upper is None:
+            return _copy_of(e.value, attr)
+        return False
+
+    n_judged = 0
+    for names, flag, dflt in pairs:
+        raw_defs = {}  # local name -> lineno of the assignment that makes it a full copy
+        for n in nodes:
+            if isinstance(n, ast.Assign) and len(n.targets) == 1 and isinstance(n.targets[0], ast.Name) and _copy_of(n.value, names):
+                raw_defs.setdefault(n.targets[0].id, []).append(n.lineno)
+        pops = {}  # local name -> linenos where the slurpy name is removed under the flag
+        for n in nodes:
+            if isinstance(n, ast.Call) and isinstance(n.func, ast.Attribute) and n.func.attr == "pop" and isinstance(n.func.value, ast.Name):
+                pops.setdefault(n.func.value.id, []).append(n.lineno)
+            if isinstance(n, ast.Delete):
+                for t in n.targets:
+                    if isinstance(t, ast.Subscript) and isinstance(t.value, ast.Name):
+                        pops.setdefault(t.value.id, []).append(n.lineno)
+        for n in nodes:
+            if not (isinstance(n, ast.Call) and dotted(n.func) == "len" and len(n.args) == 1):
+                continue
+            x = n.args[0]
+            if dotted(x) == "self." + names:
+                raw = True
+            elif isinstance(x, ast.Name) and x.id in raw_defs:
+                d = max([l for l in raw_defs[x.id] if l <= n.lineno] or [0])
+                raw = bool(d) and not any(d < l <= n.lineno for l in pops.get(x.id, ()))
+            else:
+                continue
+            st = enclosing_stmt(n)
+            # the arithmetic expression the count takes part in
+            top = n
+            for a in ancestors(n):
+                if isinstance(a, (ast.BinOp, ast.Compare, ast.UnaryOp)) or (isinstance(a, ast.Call) and dotted(a.func) in ("max", "min", "range")):
+                    top = a
+                elif isinstance(a, ast.stmt):
+                    break
+            text = src(top)
+            if dflt not in text.replace("kw" + dflt, "") and not (dflt.startswith("kw") and dflt in text):
+                continue
+            n_judged += 1
+            key = "count:%s:%s" % (names, " ".join(text.split())[:60])
+            if raw and ("self." + flag) not in text:
+                ctx.violation(key, db.where(st),
+                              "`%s` counts the list %s while it still holds the %s name and combines that count with %s: whenever the signature has a %s parameter every default is attached to the parameter after the one it was written for (and the last default is lost)"
+                              % (" ".join(text.split())[:80], src(x), "*args" if flag == "varargs" else "**kwargs", dflt, "*args" if flag == "varargs" else "**kwargs"))
+            else:
+                ctx.ok(key, db.where(st), "count taken after the slurpy name was removed / corrected by self.%s" % flag)
+    if not n_judged:
+        # the pinned implementation never counts: it pops the slurpy name off the reversed copy before pairing names with defaults
+        for names, flag, dflt in pairs:
+            consumed = [n for n in nodes if isinstance(n, ast.Call) and isinstance(n.func, ast.Attribute) and n.func.attr == "pop"]
+            ctx.check(bool(consumed) or any(isinstance(n, ast.IfExp) and ("self." + flag) in src(n.test) for n in nodes), "nocount:" + names, db.where(g),
+                      "neither a count nor a removal of the %s name found" % flag, "names and defaults are paired without counting (slurpy name removed first)")
 
 
 @rule("C05.def-emitter-siblings", min_instances=4, props=["C17"])
